@@ -52,6 +52,8 @@ def op? (e : Sexp) : Option Op :=
   | .list (.atom "addc" :: d :: ix :: vs) => do
     let d ← d.toNat?
     some (.addComp d (d, ← ix.toNat?) (← vs.mapM toInt?))
+  | .list (.atom "addx" :: d :: d2 :: ix :: vs) => do
+    some (.addComp (← d.toNat?) (← d2.toNat?, ← ix.toNat?) (← vs.mapM toInt?))
   | .list [.atom "remc", d, ix] => do
     let d ← d.toNat?
     some (.removeComp d (d, ← ix.toNat?))
